@@ -380,7 +380,7 @@ pub fn cli(args: &[String]) -> i32 {
         let (stdout, stderr, code, timed_out) = run_binary(&any, &home, mode, q, 20);
         if timed_out {
             n += 1;
-            out.line(&json!({"id": n, "text": q, "mode": mode, "results": [], "descs": [], "lib_panic": "not evaluated: the binary did not finish within 20 s",
+            out.line(&json!({"id": n, "text": q, "mode": mode, "plain": false, "results": [], "descs": [], "lib_panic": "not evaluated: the binary did not finish within 20 s",
                              "lib_parse_error": "", "stdout": [], "stderr": ["no result after 20 s: killed"], "exit": code, "timeout": true}));
             continue;
         }
@@ -388,10 +388,10 @@ pub fn cli(args: &[String]) -> i32 {
         let results: Vec<Value> = o.results.iter().map(|r| match r {
             Ok(v) => json!({"k": "val", "u": ids.as_ref().map(|i| crate::lang::units_json(&unit_names(&v.unit), i)).unwrap_or_else(|| json!([])), "msg": "",
                             "num": v.value.numer().to_string(), "den": v.value.denom().to_string(),
-                            "decimal": v.value.display(&spec).to_string(), "has_numerator": v.unit.has_numerator(),
+                            "decimal": v.value.display(&spec).to_string(), "has_numerator": v.unit.has_numerator(), "s": 0, "e": 0,
                             "unit_plural": v.unit.display(true).to_string(), "unit_singular": v.unit.display(false).to_string()}),
             // msg1: the message up to its first line break, as the first line of the diagnostic shows it
-            Err((m, _, _)) => json!({"k": "err", "msg": m, "msg1": format!("error: {}", m).lines().next().unwrap_or("error: ")["error: ".len()..].to_string(), "u": [], "num": "", "den": "", "decimal": "", "has_numerator": false, "unit_plural": "", "unit_singular": ""}),
+            Err((m, es, ee)) => json!({"k": "err", "s": es, "e": ee, "msg": m, "msg1": format!("error: {}", m).lines().next().unwrap_or("error: ")["error: ".len()..].to_string(), "u": [], "num": "", "den": "", "decimal": "", "has_numerator": false, "unit_plural": "", "unit_singular": ""}),
         }).collect();
         // description block as the library reports it: query, description, source description and url
         let mut descs = Vec::new();
@@ -426,7 +426,9 @@ pub fn cli(args: &[String]) -> i32 {
         } else {
             (Vec::new(), Vec::new())
         };
-        out.line(&json!({"id": n, "text": q, "mode": mode, "results": results, "descs": descs, "lib_panic": o.panic.clone().unwrap_or_default(),
+        // plain: one line of printable ASCII, for which the diagnostic block is prescribed in full (Cli.tla, DiagBlock)
+        let plain = !q.is_empty() && q.chars().all(|c| (' '..='~').contains(&c));
+        out.line(&json!({"id": n, "text": q, "mode": mode, "plain": plain, "results": results, "descs": descs, "lib_panic": o.panic.clone().unwrap_or_default(),
                          "src": src, "dbg": dbg, "lib_parse_error": o.parse_error.clone().unwrap_or_default(),
                          "stdout": stdout.lines().collect::<Vec<_>>(), "stderr": stderr.lines().take(5).collect::<Vec<_>>(), "exit": code}));
     }
